@@ -91,6 +91,37 @@ theorem stencil_linear (m : DiffMethod) (f g : α → α) (a b h : α) :
     stencil m (fun s => a * f s + b * g s) h = a * stencil m f h + b * stencil m g h := by
   cases m <;> simp only [stencil] <;> ring
 
+/-- **every scheme is exact on affine restrictions** (first-order mass action in the shifted coordinate; a parameter that
+enters a rate linearly): whatever `method` is selected the reported entry is the slope itself. -/
+theorem affine_exact (m : DiffMethod) (c0 c1 h : α) (hh : h ≠ 0) : stencil m (fun s => c0 + c1 * s) h = c1 := by
+  cases m
+  · have := fourth_order_exact c0 c1 0 0 0 h hh
+    unfold quartic at this
+    simpa using this
+  · simpa using central_exact c0 c1 0 h hh
+  · exact backward_exact c0 c1 h hh
+  · exact forward_exact c0 c1 h hh
+
+/-- **sparsity**: an equation that does not involve the shifted coordinate (its restriction is constant) gets an entry
+of exactly zero under every scheme and every step — no spurious coupling is reported. -/
+theorem stencil_const (m : DiffMethod) (c h : α) : stencil m (fun _ => c) h = 0 := by
+  cases m <;> simp [stencil] <;> (try ring_nf) <;> simp
+
+/-- the two symmetric schemes do not depend on the sign of the step; the one-sided schemes are mirror images of each
+other (a negative `h` turns `forward` into `backward`). -/
+theorem stencil_neg_step (f : α → α) (h : α) :
+    stencil .central f (-h) = stencil .central f h ∧ stencil .fourth f (-h) = stencil .fourth f h
+      ∧ stencil .forward f (-h) = stencil .backward f h ∧ stencil .backward f (-h) = stencil .forward f h := by
+  refine ⟨?_, ?_, ?_, ?_⟩
+  · simp only [stencil, neg_neg, mul_neg, div_neg]
+    rw [← neg_div]; congr 1; ring
+  · simp only [stencil, neg_neg, mul_neg, div_neg]
+    rw [← neg_div]; congr 1; ring
+  · simp only [stencil, div_neg]
+    rw [← neg_div]; congr 1; ring
+  · simp only [stencil, neg_neg, div_neg]
+    rw [← neg_div]; congr 1; ring
+
 variable [Transc α]
 
 /-- **orientation**: entry `[i][j]` of the reported Jacobian differentiates equation `i` with respect to
